@@ -847,6 +847,20 @@ def undeclared_and_moved_family(ctx, n):
     import xml.dom
     from harness import impl
     rng = ctx.rng
+    # re-declared URIs leave one prefix per URI and a mapping that is exactly the remaining rules
+    for text in ('@namespace a "one"; @namespace b "two"; @namespace c "one"; @namespace d "two"; d|x{l:0}',
+                 '@namespace a "one"; @namespace b "one"; @namespace c "one"; c|x{l:0}',
+                 '@namespace a "one"; @namespace b "two"; @namespace a "two"; @namespace b "one"; a|x b|y{l:0}'):
+        impl.reset()
+        ctx.case(('redeclared', text))
+        try:
+            sheet = cssutils.parseString(text)
+            rules_ = [(r.prefix, r.namespaceURI) for r in sheet.cssRules if r.type == r.NAMESPACE_RULE]
+            view_ = dict(sheet.namespaces.items())
+            if len({u for _, u in rules_}) != len(rules_) or dict(rules_) != view_:
+                ctx.violation('view-vs-rules', {'text': text, 'cls': None, 'family': 'redeclared'}, '@namespace rules %r, mapping %r' % (rules_, view_), KNOWN_PRED)
+        except Exception as e:  # noqa
+            ctx.violation('negation-raises', {'text': text, 'cls': None}, '%s: %s' % (type(e).__name__, e), KNOWN_PRED)
     SHAPES = ['x|a.c', 'p|ok, x|a.c', 'b > x|a', 'b[x|att]', 'b:not(x|a)', 'b:not([x|a])', 'x|a', '.c x|*', 'x|a, k2', '*|y x|z#i']
     for _ in range(n):
         impl.reset()
